@@ -10,7 +10,7 @@ from ..actors import InjectedFault
 from ..loop import PAUSE, Cancel
 from ..runner import Outcome
 from ..tools import lib
-from .common import COMPONENTS_BASE, run_sim, new_sim, finish_outcome
+from .common import set_interrupts, COMPONENTS_BASE, run_sim, new_sim, finish_outcome
 
 PID = "C15"
 LEVEL = "exploration"
@@ -48,7 +48,7 @@ def execute(st, ctx):
     out = Outcome()
     sc = gen(st.scenario)
     sim = new_sim(st, interrupts=False)
-    sim.interrupt_den = (0, 0, 5, 2)[sc.interrupt]
+    set_interrupts(sim, (0, 0, 5, 2)[sc.interrupt])
     L = lib()
     log = []
     counter = [0]
